@@ -115,7 +115,7 @@ def generate(scope='lib', repo=REPO, quiet=True):
         os.rename(tmp, cache)
         # prune old caches (keep the 4 most recent)
         fd = os.path.join(WORK, 'facts')
-        ds = sorted((os.path.join(fd, d) for d in os.listdir(fd)), key=lambda p: os.stat(p).st_mtime)
+        ds = sorted((os.path.join(fd, d) for d in os.listdir(fd) if not d.startswith('fixtures-')), key=lambda p: os.stat(p).st_mtime)
         for d in ds[:-4]:
             shutil.rmtree(d, ignore_errors=True)
         meta['factgen_wall_s'] = round(time.time() - t0, 2)
@@ -128,3 +128,38 @@ def generate(scope='lib', repo=REPO, quiet=True):
 if __name__ == '__main__':
     d, m = generate(sys.argv[1] if len(sys.argv) > 1 else 'lib')
     print(d, m)
+
+
+def generate_fixtures():
+    """facts of /verif/fixtures (positive controls), cached by content hash; returns the fact directory"""
+    os.makedirs(WORK, exist_ok=True)
+    build_driver()
+    fx = os.path.join(VERIF, 'fixtures')
+    h = hashlib.sha256()
+    for f in ('Cargo.toml', 'src/lib.rs'):
+        h.update(open(os.path.join(fx, f), 'rb').read())
+    st = os.stat(DRIVER)
+    h.update(('%d-%d' % (st.st_size, int(st.st_mtime))).encode())
+    cache = os.path.join(WORK, 'facts', 'fixtures-' + h.hexdigest()[:16])
+    lock = open(os.path.join(WORK, 'lock-fx'), 'w')
+    fcntl.flock(lock, fcntl.LOCK_EX)
+    try:
+        if os.path.exists(os.path.join(cache, 'OK')):
+            return cache
+        tmp = cache + '.tmp'
+        shutil.rmtree(tmp, ignore_errors=True)
+        os.makedirs(tmp)
+        target = os.path.join(WORK, 'target-fx')
+        shutil.rmtree(os.path.join(target, 'debug', '.fingerprint'), ignore_errors=True)
+        r = subprocess.run(['cargo', '+nightly', 'check', '--offline', '--lib'], cwd=fx, env=cargo_env(tmp, target), capture_output=True, text=True)
+        if r.returncode != 0 or not any(x.endswith('.json') for x in os.listdir(tmp)):
+            sys.stderr.write(r.stderr[-3000:])
+            print('INCONCLUSIVE: the positive-control fixture crate does not compile')
+            raise SystemExit(2)
+        open(os.path.join(tmp, 'OK'), 'w').write('ok')
+        shutil.rmtree(cache, ignore_errors=True)
+        os.rename(tmp, cache)
+        return cache
+    finally:
+        fcntl.flock(lock, fcntl.LOCK_UN)
+        lock.close()
